@@ -282,6 +282,8 @@ def run(repo, chk):
         for journal, res, site, ok_, detail in journal_findings(repo, jf, cg_, contextvars_of(repo)):
             chk.ob("R02.6", f"{jq}:a-refused-activation-leaves-other-probes-instrumented[{journal}:{site}]", ok_, jf.where,
                    f"when another probe's activation is refused, {jq} undoes exactly the tooling that had completed: the counts of functions that active probes share stay where they were, so those probes keep receiving their events" if ok_ else detail)
+    from .shared import routing_obligations
+    routing_obligations(repo, chk, "R02.4", "record")
     # ---------------- R02.5
     bad = []
     n_ix = 0
